@@ -201,6 +201,10 @@ pub struct GOpts {
     pub isolate: bool,
     pub rf: RfOpt,
     pub min0: bool,
+    /// --skip-content-hash (explicitly dangerous; only C15 generates it, where the statement
+    /// "an incompletely read file is never reported" does not depend on the last stage)
+    #[serde(default)]
+    pub skip_content_hash: bool,
 }
 
 impl Default for GOpts {
@@ -219,6 +223,7 @@ impl Default for GOpts {
             isolate: false,
             rf: RfOpt::Default,
             min0: false,
+            skip_content_hash: false,
         }
     }
 }
@@ -298,6 +303,7 @@ pub fn gopts_strategy(p: OptProfile) -> BoxedStrategy<GOpts> {
                 isolate: isolate && iso,
                 rf: if rf { rfo } else { RfOpt::Default },
                 min0,
+                skip_content_hash: false,
             };
             if o.isolate {
                 o.follow_links = false; // clap conflict
@@ -394,6 +400,9 @@ impl GOpts {
                 push(&k.to_string());
             }
             RfOpt::Unique => push("--unique"),
+        }
+        if self.skip_content_hash {
+            push("--skip-content-hash");
         }
         if self.min0 {
             push("--min");
